@@ -106,6 +106,8 @@ def comp? : Sexp → Option Comp
 def der? : Sexp → Option Der
   | .list [.atom l, .atom "dbl", .atom a] => some (.dbl l a)
   | .list [.atom l, .atom "sum", .atom a, .atom b] => some (.sum l a b)
+  | .list [.atom l, .atom "fn1", .atom f, .atom a] => some (.fn1 l f a)
+  | .list [.atom l, .atom "fn2", .atom f, .atom a, .atom b] => some (.fn2 l f a b)
   | _ => none
 
 partial def st? : Sexp → Option St
@@ -120,8 +122,28 @@ def sel? : Sexp → Option Sel
   | .list [.atom l, o, st, sty] => do some ⟨l, ← o.toNat?, ← st? st, ← style? sty⟩
   | _ => none
 
-def link? : Sexp → Option Link
-  | .list [i, .atom a, j, .atom b] => do some ⟨← i.toNat?, a, ← j.toNat?, b⟩
+def cref? : Sexp → Option CRef
+  | .list [i, .atom a] => do some ⟨← i.toNat?, a⟩
+  | _ => none
+
+def optFn? : Sexp → Option (Option Fn)
+  | .atom "N" => some none
+  | .atom f => some (some f)
+  | _ => none
+
+/-- an entry of `dc.external_links` as the recipe spells it; `(i a j b)` is the round-1 spelling of
+`LinkSame(data[i].id[a], data[j].id[b])` -/
+def ext? : Sexp → Option Ext
+  | .list [.atom "same", a, b] => do some (.same (← cref? a) (← cref? b))
+  | .list [.atom "cl", .list frm, to, .atom f, inv] => do
+    some (.plain ⟨← frm.mapM cref?, ← cref? to, f, ← optFn? inv⟩)
+  | .list [.atom "two", a, b, .atom f, .atom g] => do some (.twoWay (← cref? a) (← cref? b) f g)
+  | .list [.atom "pair", a1, a2, b1, b2] => do
+    some (.pair (← cref? a1) (← cref? a2) (← cref? b1) (← cref? b2))
+  | .list [.atom "multi", a1, a2, b1, b2] => do
+    some (.multi (← cref? a1) (← cref? a2) (← cref? b1) (← cref? b2))
+  | .list [.atom "aligned", i, j] => do some (.aligned (← i.toNat?) (← j.toNat?))
+  | .list [i, .atom a, j, .atom b] => do some (.same ⟨← i.toNat?, a⟩ ⟨← j.toNat?, b⟩)
   | _ => none
 
 def atoms? (e : Sexp) : Option (List String) := do (← e.toList?).mapM atom?
@@ -139,7 +161,7 @@ def buildDC (cv : Nat) (recipe : Sexp) : Option DCO :=
   match recipe with
   | .list [.list datas, .list sels, .list links, .list joins, sgc] => do
     let sels ← sels.mapM sel?
-    let links ← links.mapM link?
+    let links ← links.mapM ext?
     let joins ← joins.mapM join?
     let sgc ← sgc.toNat?
     let ds ← datas.zipIdx.mapM fun (e, k) =>
@@ -178,15 +200,46 @@ def keyOf : Sexp → String
 def sortByKey (xs : List Sexp) : List Sexp :=
   xs.foldl (fun acc x => insertBy (fun a b => keyOf a < keyOf b) x acc) []
 
-/-- what `observe(dc)` returns on the Python side; `careUuid = false` blanks the uuid flag -/
-def observeDC (x : DCO) (careUuid : Bool) : Sexp :=
+/-- sorted by the text of the expression (the Python side sorts by the same text) -/
+def sortByText (xs : List Sexp) : List Sexp :=
+  xs.foldl (fun acc x => insertBy (fun a b => Sexp.toString a < Sexp.toString b) x acc) []
+
+def crefSx (r : CRef) : Sexp := .atom s!"{r.ds}.{r.label}"
+
+def clinkSx (l : CLink) : Sexp :=
+  .list [.list (l.frm.map crefSx), crefSx l.to, .atom l.fn,
+    match l.inv with | some g => .atom g | none => .atom "N"]
+
+def extSx (e : Ext) : Sexp :=
+  let (kind, c1, c2) : String × List CRef × List CRef := match e with
+    | .plain _ => ("plain", [], [])
+    | .same a b => ("same", [a], [b])
+    | .twoWay a b _ _ => ("two", [a], [b])
+    | .pair a1 a2 b1 b2 => ("pair", [a1, a2], [b1, b2])
+    | .multi a1 a2 b1 b2 => ("multi", [a1, a2], [b1, b2])
+    | .aligned _ _ => ("aligned", [], [])
+  .list [.atom kind, .list (c1.map crefSx), .list (c2.map crefSx), .list (sortByText (e.flatten.map clinkSx))]
+
+def valSx : Val → List Sexp
+  | (k, vs) => [kindSx k, ofInts vs]
+
+/-- the components of dataset `j` another dataset may ask for: pixel, main, world, derived -/
+def refsOf (j : Nat) (d : DataO) : List CRef :=
+  [⟨j, pixLabel⟩] ++ d.comps.map (fun c => ⟨j, c.label⟩) ++
+  (if d.coords then [⟨j, worldLabel⟩] else []) ++ d.derived.map (fun dr => ⟨j, dr.label⟩)
+
+/-- what `observe(dc)` returns on the Python side; `cares[k] = false` blanks the uuid flag of
+dataset `k` -/
+def observeDC (x : DCO) (cares : List Bool) : Sexp :=
+  let envs : List Env := (List.range x.data.length).map (reach x)
   let datas := x.data.zipIdx.map fun (d, k) =>
+    let env := envs.getD k []
     let main := d.comps.map fun c => Sexp.list [.atom c.label, kindSx c.kind, ofInts c.vals]
-    let der := d.derived.map fun dr => match derVals d dr with
-      | some (kd, vs) => Sexp.list [.atom dr.label, kindSx kd, ofInts vs]
+    let der := d.derived.map fun dr => match env.get ⟨k, dr.label⟩ with
+      | some v => Sexp.list (.atom dr.label :: valSx v)
       | none => Sexp.list [.atom dr.label, .atom "bad"]
     let subs := d.subsets.map fun s =>
-      let m : Sexp := match maskOn x k s with
+      let m : Sexp := match maskOn x envs k s with
         | some bs => .list (bs.map fun b => .atom (if b then "1" else "0"))
         | none => .atom "inc"
       Sexp.list [.atom s.label, m, styleSx s.style]
@@ -194,41 +247,100 @@ def observeDC (x : DCO) (careUuid : Bool) : Sexp :=
       Sexp.list [.atom ((x.data[j.other]?.map (·.label)).getD "?"), .list (j.own.map .atom), .list (j.theirs.map .atom)])
     let metaKV := sortByKey (d.metaKV.map fun (a, b) => Sexp.list [.atom a, .atom b])
     let world : Sexp := if d.coords then .list [.atom "World_0"] else .list []
-    let uu : Sexp := if !careUuid then .atom "N" else ofBool (d.uuid == some k)
+    let uu : Sexp := if !(cares.getD k true) then .atom "N" else ofBool (d.uuid == some k)
     Sexp.list [.atom d.label, .list main, .list der, .list subs, styleSx d.style, .list kj, .list metaKV,
       ofBool true, .atom (if d.coords then "IdentityCoordinates" else "none"), world,
       .list [.atom "Pixel_Axis_0_[x]"], uu]
+  let ext := sortByText (x.links.map extSx)
+  let internal : List CLink := x.data.zipIdx.flatMap fun (d, i) =>
+    (if d.coords then [(⟨[⟨i, pixLabel⟩], ⟨i, worldLabel⟩, "coord", none⟩ : CLink),
+                       ⟨[⟨i, worldLabel⟩], ⟨i, pixLabel⟩, "coord", none⟩] else []) ++
+    d.derived.map (·.link i)
+  let links := sortByText ((internal ++ x.links.flatMap Ext.flatten).map clinkSx)
+  let acc := x.data.zipIdx.map fun (_, k) =>
+    let env := envs.getD k []
+    Sexp.list (x.data.zipIdx.flatMap fun (e, j) =>
+      if j = k then [] else (refsOf j e).map fun r => match env.get r with
+        | some v => Sexp.list (crefSx r :: valSx v)
+        | none => Sexp.list [crefSx r, .atom "inc"])
   .list [.list datas, .list (x.groups.map fun (l, s) => Sexp.list [.atom l, styleSx s]),
-    ofNat x.sgCount, ofNat x.links.length]
+    ofNat x.sgCount, .list ext, .list links, .list acc]
 
-/-- blank the uuid flag of every dataset in a Python observation -/
-def blankUuid : Sexp → Sexp
-  | .list [.list datas, g, n, e] =>
-    .list [.list (datas.map fun d => match d with
-      | .list xs => if xs.length == 12 then .list (xs.take 11 ++ [.atom "N"]) else d
-      | a => a), g, n, e]
+/-- blank the uuid flag of the datasets with `cares[k] = false` in a Python observation -/
+def blankUuid (cares : List Bool) : Sexp → Sexp
+  | .list (.list datas :: rest) =>
+    .list (.list (datas.zipIdx.map fun (d, k) => match d with
+      | .list xs => if xs.length == 12 && !(cares.getD k true) then .list (xs.take 11 ++ [.atom "N"]) else d
+      | a => a) :: rest)
   | e => e
+
+/-- `dv` of a case: one version for every dataset, or one per dataset -/
+def dvs? (n : Nat) : Sexp → Option (List Nat)
+  | .list vs => vs.mapM (·.toNat?)
+  | e => e.toNat?.map (List.replicate n)
+
+/-- one collection of a document: (cv, dvs, the object built from the recipe) -/
+def part? : Sexp → Option (Nat × List Nat × DCO)
+  | .list (dvS :: cvS :: recipe :: _) => do
+    let cv ← cvS.toNat?
+    let orig ← buildDC cv recipe
+    let dvs ← dvs? orig.data.length dvS
+    some (cv, dvs, orig)
+  | _ => none
+
+def req? : Sexp → Option Req
+  | .list [k, i] => do some (.data (← k.toNat?) (← i.toNat?))
+  | .list [k] => do some (.coll (← k.toNat?))
+  | _ => none
+
+def hasMixedInput (dc : DCO) : Bool :=
+  (dc.links.flatMap Ext.flatten).any fun l =>
+    l.frm.any (fun c => c.ds != l.to.ds) && l.frm.any (fun c => c.ds == l.to.ds)
+
+/-- `single = true`: `__main__` is the collection itself, otherwise the list of collections -/
+def rtRun (single : Bool) (parts : List (Nat × List Nat × DCO)) (reqs : List Req) (pyout : Sexp) : String :=
+  let cares := parts.map fun (_, dvs, _) => dvs.map fun v => decide (4 ≤ v)
+  let rep := parts.all fun (cv, dvs, dc) => representable cv dvs dc
+  let refused := parts.any fun (_, dvs, dc) => saveRefused dvs dc
+  let wrap (xs : List Sexp) : Sexp := match single, xs with
+    | true, [x] => x
+    | _, _ => .list xs
+  let impl : Sexp := match parts.mapM (fun (cv, dvs, dc) => saveDC cv dvs dc) with
+    | none => .atom "save-error"
+    | some doc => match Unser.run doc reqs with
+      | none => .atom "load-error"
+      | some ys => wrap ((ys.zip cares).map fun (y, c) => observeDC y c)
+  let spec : Sexp := wrap ((parts.zip cares).map fun ((cv, dvs, dc), c) => observeDC (projectDC cv dvs dc) c)
+  let accepts (o : Sexp) : Bool := if rep then o == spec else o == .atom "save-error"
+  let py : Sexp := match single, pyout, cares with
+    | true, o, [c] => blankUuid c o
+    | false, .list os, cs => .list ((os.zip cs).map fun (o, c) => blankUuid c o)
+    | _, o, _ => o
+  let uniform := parts.all fun (_, dvs, _) => dvs.all fun v => some v == dvs.head?
+  let lnk := if parts.any (fun (_, _, dc) => hasMixedInput dc) then "-mixedin"
+    else if parts.any (fun (_, _, dc) => !dc.links.isEmpty) then "-lnk" else ""
+  let name := match single, parts with
+    | true, [(cv, dvs, _)] => if uniform then s!"d{dvs.headD 0}c{cv}" else s!"dmix-c{cv}"
+    | _, _ => s!"doc{parts.length}{if uniform then "" else "-dmix"}"
+  let ord := if reqs.isEmpty then "" else "-ord"
+  if !rep && !refused then bad "rt-recipe-not-representable"
+  else driverResult impl (accepts py) (accepts impl) rep
+    s!"{name}{ord}{lnk}{if rep then "" else "-unrepresentable"}"
 
 def rtStep (case pyout : Sexp) : String :=
   match case with
+  | .list [.atom "doc", .list ps, .list ord] =>
+    match ps.mapM part?, ord.mapM req? with
+    | some parts, some reqs => rtRun false parts reqs pyout
+    | _, _ => bad "rt-doc"
   | .list [dvS, cvS, recipe] =>
-    match dvS.toNat?, cvS.toNat? with
-    | some dv, some cv =>
-      match buildDC cv recipe with
-      | none => bad "rt-recipe"
-      | some orig =>
-        let care := decide (4 ≤ dv)
-        let rep := representable cv dv orig
-        let impl : Sexp := match saveDC cv dv orig with
-          | none => .atom "save-error"
-          | some r => match loadDC r with
-            | none => .atom "load-error"
-            | some y => observeDC y care
-        let spec : Sexp := observeDC (projectDC cv dv orig) care
-        let accepts (o : Sexp) : Bool := if rep then o == spec else o == .atom "save-error"
-        let py := if care then pyout else blankUuid pyout
-        driverResult impl (accepts py) (accepts impl) rep s!"d{dv}c{cv}{if rep then "" else "-unrepresentable"}"
-    | _, _ => bad "rt-versions"
+    match part? (.list [dvS, cvS, recipe]) with
+    | some p => rtRun true [p] [] pyout
+    | none => bad "rt-case"
+  | .list [dvS, cvS, recipe, .list ord] =>
+    match part? (.list [dvS, cvS, recipe]), ord.mapM (·.toNat?) with
+    | some p, some is => rtRun true [p] (is.map fun i => Req.data 0 i) pyout
+    | _, _ => bad "rt-case"
   | _ => bad "rt-case"
 
 /-! ### the chase on names -/
